@@ -417,4 +417,71 @@ theorem nft_shift (w : K) (M : Nat) (z : Nat → Nat → Int) (shape : List Nat)
 
 end shift
 
+/-! ### non-vacuity: concrete instances over the Gaussian rationals (`M = 4`, `ω = i`), the scalars the driver runs on -/
+section examples
+open CQ
+
+/-- the hypotheses of all theorems above are met by `K = CQ`, `M = 4`, `ω = i`, `cj = conj` -/
+theorem cqI_root : (CQ.I : CQ) ^ 4 = 1 := by decide +kernel
+theorem cqI_conj : CQ.conj CQ.I * CQ.I = 1 := by decide +kernel
+/-- `i` as a unit of `CQ` -/
+def cqIUnit : CQˣ := rootUnit CQ.I 4 (by decide) cqI_root
+
+-- shape [3] (odd: centred index κ = k − 1), two points a = 1, −2  (pos·dst = 1/4, −1/2)
+example : nftExp 4 [3] [[1], [-2]] = [(0, 0, 3), (0, 1, 2), (1, 0, 0), (1, 1, 0), (2, 0, 1), (2, 1, 2)] := by decide
+-- 2-D, shape [2,3]: κ = (k_0 − 1, k_1 − 1)
+example : (nftExp 4 [2, 3] [[1, 1]]).map (fun e => e.2.2) = [2, 3, 0, 3, 0, 1] := by decide
+
+-- nft_adjoint on a concrete pair of vectors (both sides are the same Gaussian rational, and not zero)
+example : inner CQ.conj 3 (vecOf [⟨1, 0⟩, ⟨2, 0⟩, ⟨-1, 0⟩]) (apply (nftCoo CQ.I 4 [3] [[1], [-2]]) (vecOf [⟨1, 2⟩, ⟨0, -1⟩]))
+    = ⟨6, 0⟩ ∧
+    inner CQ.conj 2 (applyAdj CQ.conj (nftCoo CQ.I 4 [3] [[1], [-2]]) (vecOf [⟨1, 0⟩, ⟨2, 0⟩, ⟨-1, 0⟩])) (vecOf [⟨1, 2⟩, ⟨0, -1⟩])
+    = ⟨6, 0⟩ := by decide +kernel
+example := nft_adjoint CQ.conj_isConj CQ.I 4 [3] [[1], [-2]] (vecOf [⟨1, 2⟩, ⟨0, -1⟩]) (vecOf [⟨1, 0⟩, ⟨2, 0⟩, ⟨-1, 0⟩])
+
+-- nft_adjoint_dense: Eᴴ[0, 0] = conj(i^3) = i = i^((4 − 3) mod 4)
+example : dense (adj CQ.conj (nftCoo CQ.I 4 [3] [[1], [-2]])) 0 0 = CQ.I := by decide +kernel
+example := nft_adjoint_dense CQ.conj_isConj (by decide : 0 < 4) cqI_root cqI_conj [3] [[1], [-2]] 0 0 (by decide) (by decide)
+
+-- nft_mono_apply / nft_mono_applyAdj: the coefficient lists the driver prints, and their value at ω = i
+example : monoApply 4 [3] [[1], [-2]] (vecOf [(⟨1, 2⟩ : CQ), ⟨0, -1⟩]) 0 = [⟨0, 0⟩, ⟨0, 0⟩, ⟨0, -1⟩, ⟨1, 2⟩] := by decide +kernel
+example : evalPoly CQ.I (monoApply 4 [3] [[1], [-2]] (vecOf [(⟨1, 2⟩ : CQ), ⟨0, -1⟩]) 0) = ⟨2, 0⟩
+    ∧ apply (nftCoo CQ.I 4 [3] [[1], [-2]]) (vecOf [(⟨1, 2⟩ : CQ), ⟨0, -1⟩]) 0 = ⟨2, 0⟩ := by decide +kernel
+example : monoApplyAdj 4 [3] [[1], [-2]] (vecOf [(⟨1, 0⟩ : CQ), ⟨2, 0⟩, ⟨-1, 0⟩]) 0 = [⟨2, 0⟩, ⟨1, 0⟩, ⟨0, 0⟩, ⟨-1, 0⟩] := by
+  decide +kernel
+example : evalPoly CQ.I (monoApplyAdj 4 [3] [[1], [-2]] (vecOf [(⟨1, 0⟩ : CQ), ⟨2, 0⟩, ⟨-1, 0⟩]) 0) = ⟨2, 2⟩
+    ∧ applyAdj CQ.conj (nftCoo CQ.I 4 [3] [[1], [-2]]) (vecOf [(⟨1, 0⟩ : CQ), ⟨2, 0⟩, ⟨-1, 0⟩]) 0 = ⟨2, 2⟩ := by decide +kernel
+example := nft_mono_apply CQ.I (by decide : 0 < 4) [3] [[1], [-2]] (vecOf [(⟨1, 2⟩ : CQ), ⟨0, -1⟩]) 0 (by decide)
+example := nft_mono_applyAdj CQ.conj_isConj (by decide : 0 < 4) cqI_root cqI_conj [3] [[1], [-2]]
+  (vecOf [(⟨1, 0⟩ : CQ), ⟨2, 0⟩, ⟨-1, 0⟩]) 0 (by decide)
+-- naturality with φ = conj
+example := monoApply_natural CQ.conj (by decide +kernel) CQ.conj_isConj.add 4 [3] [[1], [-2]] (vecOf [(⟨1, 2⟩ : CQ), ⟨0, -1⟩]) 0
+
+-- nft_exp_is_zpow: m = −3 is reduced to 1, i^{−3} = i
+example : ((-3 : Int) % ((4 : Nat) : Int)).toNat = 1 := by decide
+example := nft_exp_is_zpow (u := cqIUnit) (by decide : 0 < 4) (rootUnit_pow _ _ _ _) (-3)
+
+-- nft_on_grid_is_dft, N = 4: rows k = 0..3 (κ = −2..1) of the exponent table of the shifted DFT matrix
+example : (List.range 4).map (fun k => (List.range 4).map fun j => nftExpAt 4 [4] (dftPos 4) k j)
+    = [[0, 2, 0, 2], [0, 3, 2, 1], [0, 0, 0, 0], [0, 1, 2, 3]] := by decide
+-- odd N = 3 (M = 3): κ = −1, 0, 1
+example : (List.range 3).map (fun k => (List.range 3).map fun j => nftExpAt 3 [3] (dftPos 3) k j)
+    = [[0, 2, 1], [0, 0, 0], [0, 1, 2]] := by decide
+example : dense (nftCoo CQ.I 4 [4] (dftPos 4)) 1 3 = CQ.I := by decide +kernel
+example := nft_on_grid_is_dft cqI_root 1 3 (by decide) (by decide)
+example := nft_on_grid_is_dft_cj CQ.conj_isConj cqI_root cqI_conj 1 3 (by decide) (by decide)
+-- D = 2, shape [2, 4], M = 4: FFT-grid positions (j_0/2, j_1/4) ↦ a = (2 j_0, j_1)
+example : gridPos 4 [2, 4] = [[0, 0], [0, 1], [0, 2], [0, 3], [2, 0], [2, 1], [2, 2], [2, 3]] := by decide
+example : (List.range 8).map (fun c => nftExpAt 4 [2, 4] (gridPos 4 [2, 4]) 7 c) = [0, 1, 2, 3, 0, 1, 2, 3]
+    ∧ (List.range 8).map (fun c => nftExpAt 4 [2, 4] (gridPos 4 [2, 4]) 0 c) = [0, 2, 0, 2, 2, 0, 2, 0] := by decide
+example := nft_on_grid_is_dft_nd (u := cqIUnit) (by decide : 0 < 4) (rootUnit_pow _ _ _ _) [2, 4] 7 5 (by decide) (by decide)
+example := axis_root (u := cqIUnit) (rootUnit_pow _ _ _ _) (by decide : 2 ∣ 4)
+
+-- nft_shift: whole periods (here z_{j,d} = j − d) change the lattice coordinates but not the table
+example : shiftPos 4 (fun j d => (j : Int) - d) [[1, 2], [-3, 0]] = [[1, -2], [1, 0]] := by decide
+example : nftExp 4 [2, 3] [[1, -2], [1, 0]] = nftExp 4 [2, 3] [[1, 2], [-3, 0]] := by decide
+example := nft_shift CQ.I 4 (fun j d => (j : Int) - d) [2, 3] [[1, 2], [-3, 0]]
+
+end examples
+
 end NiftyVerif.Nft
